@@ -174,7 +174,8 @@ def _model(seed):
     from pgverif import models as GM
     name = ["Langmuir", "Toth", "DSLangmuir", "Henry"][seed % 4]
     r = gen.rng(seed, "m")
-    P = {"Langmuir": {"K": 1.2, "n_m": 5.0}, "Toth": {"K": 2.0, "n_m": 4.0, "t": 0.8}, "DSLangmuir": {"n_m1": 2.0, "K1": 0.5, "n_m2": 3.0, "K2": 6.0}, "Henry": {"K": 0.7}}[name]
+    P = {"Langmuir": {"K": 1.2345678901234, "n_m": 5.0}, "Toth": {"K": 2.0000000123, "n_m": 4.0, "t": 0.8123456789}, "DSLangmuir": {"n_m1": 2.0, "K1": 0.5, "n_m2": 3.0, "K2": 6.000000001234},
+         "Henry": {"K": 0.7000000004321}}[name]  # (as many digits as a fit leaves)
     m = GM.make_model(name, P, pressure_range=(0.01, 5.0), loading_range=(0.01, 4.0), rmse=0.01)
     return pygaps.ModelIsotherm(model=m, material="verif-c04-m", adsorbate="nitrogen", temperature=298.0, **gen.DEFAULT_UNITS)
 
@@ -207,7 +208,7 @@ def _model_pa(seed):
     import pygaps
     from pgverif import models as GM
     name = ["Langmuir", "Toth"][seed % 2]
-    P = {"Langmuir": {"K": 2.0e-5, "n_m": 5.0}, "Toth": {"K": 3.0e-5, "n_m": 4.0, "t": 0.8}}[name]
+    P = {"Langmuir": {"K": 2.0123456789e-5, "n_m": 5.0}, "Toth": {"K": 3.0123456789e-5, "n_m": 4.0, "t": 0.8}}[name]
     m = GM.make_model(name, P, pressure_range=(100.0, 8.0e5), loading_range=(0.05, 4.0), rmse=0.01)
     units = dict(gen.DEFAULT_UNITS, pressure_unit="Pa")
     return pygaps.ModelIsotherm(model=m, material="verif-c04-mpa", adsorbate="carbon dioxide", temperature=250.0, **units)
@@ -419,6 +420,26 @@ def _q_model_iso(r):
     return "model_iso(%s,%s)" % (model, branch), q
 
 
+def _co2_other(seed):
+    """The same material at another temperature, recorded in kPa (isosteric partner)."""
+    import pygaps
+    p = numpy.exp(numpy.linspace(math.log(1e-3), math.log(8.0), 45))
+    K, nm = (0.8 + (seed % 5) * 0.2) * 0.45, 6.0
+    n = nm * K * p / (1 + K * p)
+    units = dict(gen.DEFAULT_UNITS, pressure_unit="kPa")
+    return pygaps.PointIsotherm(pressure=list(p * 100), loading=list(n), branch="ads", material="verif-c04-co2", adsorbate="carbon dioxide", temperature=270.0, **units)
+
+
+def _q_isosteric(r):
+    from pygaps import characterisation as ch
+    pts = [round(r.uniform(0.5, 2.5), 3) for _ in range(3)]
+
+    def q(iso, partner):
+        return ch.isosteric_enthalpy([iso, partner], loading_points=sorted(pts))
+
+    return "isosteric_enthalpy", q
+
+
 def _q_iast(r, partner_seed):
     from pygaps.iast import pgiast
     which = r.choice(["iast_point", "iast_point_fraction", "reverse_iast", "iast_binary_svp"])
@@ -456,7 +477,7 @@ def make_query(r, source, heavy, seed):
     if source in ("synthetic", "n77"):
         pool += ["character", "character", "model_iso"]
     if source == "co2":
-        pool += ["whittaker", "whittaker", "model_iso", "iast", "iast", "henry"]
+        pool += ["whittaker", "whittaker", "model_iso", "iast", "iast", "henry", "isosteric", "isosteric"]
     if source == "model":
         pool = ["loading_at", "pressure_at", "spreading", "export", "iast", "adsorbate"]
     if source == "modelpa":
@@ -479,6 +500,8 @@ def make_query(r, source, heavy, seed):
     if k == "badkernel":
         from pygaps import characterisation as ch
         return "psd_dft(user-kernel-with-unreadable-cell)", (lambda iso: ch.psd_dft(iso, kernel=bad_kernel_path()))
+    if k == "isosteric":
+        return _q_isosteric(r)
     if k == "whittaker":
         return _q_whittaker(r)
     if k == "model_iso":
@@ -539,12 +562,18 @@ def _run_history(case, ctx):
         ctx.error("c04: object construction failed", exc)
         return
     partner = _co2(seed + 1) if source in ("co2", "model") else None
+    other = None
     prev = None
     trail = []
     for step in range(case["length"]):
         name, q = make_query(r, source, case.get("heavy"), seed)
         is_iast = name in ("iast_point", "iast_point_fraction", "reverse_iast", "iast_binary_svp")
-        args = [obj] + ([partner] if is_iast else [])
+        if name == "isosteric_enthalpy":
+            if other is None:
+                other = _co2_other(seed)
+            args = [obj, other]
+        else:
+            args = [obj] + ([partner] if is_iast else [])
         fps = [fingerprint(x) for x in args]
         state_before = explain(obj)
         got = _outcome(q, *args)
@@ -561,13 +590,15 @@ def _run_history(case, ctx):
                 if state_before[k] != after[k]:
                     changed[k] = [state_before[k], after[k]]
             ctx.violation("%s/mutates-argument" % qname, "a read-only call changed an isotherm / adsorbate / material passed to it", query=name, changed=changed, history=trail[-6:], source=source)
-            obj = make_object(source, seed)  # continue with an intact object
+            obj = make_object(source, seed)  # continue with intact objects
+            partner = _co2(seed + 1) if source in ("co2", "model") else None
+            other = None
             prev = None
             continue
         # (b) history independence: same call, first on a fresh identical object
         if True:  # also at step 0: earlier histories in this process left their caches behind
             fresh = make_object(source, seed)
-            fargs = [fresh] + ([_co2(seed + 1)] if is_iast else [])
+            fargs = [fresh] + ([_co2(seed + 1)] if is_iast else [_co2_other(seed)] if name == "isosteric_enthalpy" else [])
             fresh_environment(*fargs)
             exp = _outcome(q, *fargs)
             ctx.count("twin_comparisons", qname)
